@@ -19,6 +19,7 @@ def iterators_only_next(F, rep, rule, adts=None, floor=1):
 
 
 _PREMISE_MEMO = {}
+_RUNNING = []
 
 
 def premise(ctx, rep, pid, what, rules=None, key_filter=None, where="-"):
@@ -32,8 +33,16 @@ def premise(ctx, rep, pid, what, rules=None, key_filter=None, where="-"):
     mk = (id(F), pid)
     sub = _PREMISE_MEMO.get(mk)
     if sub is None:
+        if pid in _RUNNING:
+            # a cycle among premises would be an error of the rule set itself: fail closed rather than recurse
+            rep.bad("premise", "%s: %s" % (pid, what), where, "premise cycle: %s is already being evaluated (%s)" % (pid, " -> ".join(_RUNNING + [pid])))
+            return False
         sub = Report(pid)
-        importlib.import_module("analyzer.rules." + pid.lower()).run(ctx, sub)
+        _RUNNING.append(pid)
+        try:
+            importlib.import_module("analyzer.rules." + pid.lower()).run(ctx, sub)
+        finally:
+            _RUNNING.pop()
         _PREMISE_MEMO[mk] = sub
     bad = [v for v in sub.violations if (rules is None or v.rule in rules)
            and (key_filter is None or any(k in v.key for k in key_filter))]
